@@ -783,3 +783,101 @@ Example tree_roundtrip_example :
   let f := {| m_graph := tt; m_params := [([0; 0], 0%Z); ([0; 1], 0%Z); ([1], 0%Z)] |} in
   orbax_reload (orbax_save m) f = Some m.
 Proof. vm_compute. reflexivity. Qed.
+
+(* ------------------------------------------------------------------ *)
+(** ** checkpoint directory: every listed path restores to what was written under it *)
+Section CkDir.
+Context {V : Type}.
+Local Open Scope Z_scope.
+
+Lemma name_eqb_refl (k : ck_name) : name_eqb k k = true.
+Proof. unfold name_eqb. rewrite !Z.eqb_refl. reflexivity. Qed.
+
+Lemma name_eqb_epoch_neq (s1 s2 e1 e2 : Z) : e1 <> e2 -> name_eqb (s1, e1) (s2, e2) = false.
+Proof.
+  intros H. unfold name_eqb. cbn [fst snd].
+  destruct (Z.eqb_spec e1 e2) as [E|E]; [contradiction|]. apply andb_false_r.
+Qed.
+
+(** invariant of the repository's naming rule: every name in the directory and in the path list carries
+    an epoch in 1..ck_epoch, and the listed paths restore, in order, to the saved values *)
+Definition ck_inv (l : cklog V) (saved : list V) : Prop :=
+  0 <= ck_epoch l /\
+  (forall k v, In (k, v) (ck_dir l) -> snd k <= ck_epoch l) /\
+  (forall k, In k (ck_paths l) -> snd k <= ck_epoch l) /\
+  map (ck_lookup (ck_dir l)) (ck_paths l) = map Some saved.
+
+Lemma ck_lookup_fresh (d : list (ck_name * V)) (k : ck_name) (e : Z) :
+  (forall k' v, In (k', v) d -> snd k' <= e) -> e < snd k -> ck_lookup d k = None.
+Proof.
+  induction d as [|[k' v] d IH]; intros Hd Hk; [reflexivity|].
+  cbn [ck_lookup]. destruct k' as [s' e'], k as [s e0]. cbn [snd] in *.
+  rewrite name_eqb_epoch_neq.
+  - apply IH; [intros k'' v'' Hin; apply (Hd k'' v''); right; exact Hin | exact Hk].
+  - pose proof (Hd (s', e') v (or_introl eq_refl)) as Hle. cbn [snd] in Hle. lia.
+Qed.
+
+Lemma ck_record_inv (l : cklog V) (saved : list V) (step : Z) (save : bool) (v : V) :
+  ck_inv l saved ->
+  ck_inv (ck_record name_step_epoch l (step, save, v)) (if save then saved ++ [v] else saved).
+Proof.
+  intros (He & Hd & Hp & Hr). unfold ck_inv, ck_record. destruct save; cbn [ck_dir ck_epoch ck_paths].
+  - repeat split.
+    + lia.
+    + intros k v' [Heq|Hin]; [inversion Heq; subst; cbn [name_step_epoch snd]; lia | specialize (Hd k v' Hin); lia].
+    + intros k Hin. apply in_app_or in Hin. destruct Hin as [Hin|[Heq|[]]];
+        [specialize (Hp k Hin); lia | subst; cbn [name_step_epoch snd]; lia].
+    + rewrite !map_app. cbn [map]. f_equal.
+      * rewrite <- Hr. apply map_ext_in. intros k Hin. cbn [ck_lookup].
+        destruct k as [s e]. unfold name_step_epoch. rewrite name_eqb_epoch_neq; [reflexivity|].
+        specialize (Hp (s, e) Hin). cbn [snd] in Hp. lia.
+      * cbn [ck_lookup]. rewrite name_eqb_refl. reflexivity.
+  - repeat split.
+    + lia.
+    + intros k v' Hin. specialize (Hd k v' Hin). lia.
+    + intros k Hin. specialize (Hp k Hin). lia.
+    + exact Hr.
+Qed.
+
+Lemma ck_fold_inv (h : list (Z * bool * V)) : forall (l : cklog V) (saved : list V),
+  ck_inv l saved ->
+  ck_inv (fold_left (ck_record name_step_epoch) h l) (saved ++ ck_saved h).
+Proof.
+  induction h as [|[[step save] v] h IH]; intros l saved Hinv.
+  - cbn. rewrite app_nil_r. exact Hinv.
+  - cbn [fold_left]. pose proof (ck_record_inv l saved step save v Hinv) as Hstep.
+    specialize (IH _ _ Hstep). unfold ck_saved in *. cbn [filter fst snd map].
+    destruct save; cbn [map snd]; [rewrite <- app_assoc in IH; exact IH | exact IH].
+Qed.
+
+(** every history of record_epoch calls - any steps, repeated or decreasing, any save pattern *)
+Theorem ck_history_restores (h : list (Z * bool * V)) :
+  ck_restore_all name_step_epoch h = map Some (ck_saved h).
+Proof.
+  unfold ck_restore_all, ck_run.
+  assert (Hi : ck_inv (@ck_init V) []).
+  { unfold ck_inv, ck_init; cbn. repeat split; try lia; intros; contradiction. }
+  pose proof (ck_fold_inv h ck_init [] Hi) as (_ & _ & _ & Hr). exact Hr.
+Qed.
+
+(** the number of listed paths is the number of saves (nothing is dropped or listed twice) *)
+Theorem ck_history_paths_length (naming : Z -> Z -> ck_name) (h : list (Z * bool * V)) :
+  length (ck_paths (ck_run naming h)) = length (ck_saved h).
+Proof.
+  unfold ck_run. change (length (ck_saved h)) with (length (ck_paths (@ck_init V)) + length (ck_saved h))%nat.
+  generalize (@ck_init V). induction h as [|[[step save] v] h IH]; intros l.
+  - cbn. lia.
+  - cbn [fold_left]. rewrite IH. unfold ck_record, ck_saved. cbn [filter fst snd].
+    destruct save; cbn [ck_paths map length]; [rewrite app_length; cbn; lia | lia].
+Qed.
+End CkDir.
+
+(** without the epoch in the name, a step value that comes back (a logger reused for a second training call)
+    overwrites the earlier checkpoint: its listed path restores to the later parameters *)
+Theorem ck_step_only_refuted :
+  exists h : list (Z * bool * Z), ck_restore_all name_step_only h <> map Some (ck_saved h).
+Proof. exists [(2, true, 10); (4, true, 11); (2, true, 12)]%Z. vm_compute. discriminate. Qed.
+
+Example ck_history_nonvacuous :
+  ck_restore_all name_step_epoch [(2, true, 10); (3, false, 99); (2, true, 12); (1, true, 13)]%Z = [Some 10; Some 12; Some 13]%Z.
+Proof. vm_compute. reflexivity. Qed.
